@@ -248,16 +248,28 @@ def _compile_files_cache(filenames,
                          encoding,
                          cache_dir,
                          numeric_enums):
-    key = [codec.encode('ascii')]
+    # Everything that decides what is compiled is part of the key:
+    # the codec, the options and each file (with its length, as the
+    # files are separated by a new line when parsed).
+    key = [
+        codec.encode('ascii'),
+        repr(bool(numeric_enums)).encode('ascii'),
+        repr(encoding).encode('utf-8'),
+        repr(sorted(any_defined_by_choices.items())
+             if any_defined_by_choices else None).encode('utf-8')
+    ]
 
     if isinstance(filenames, str):
         filenames = [filenames]
 
     for filename in filenames:
         with open(filename, 'rb') as fin:
-            key.append(fin.read())
+            data = fin.read()
 
-    key = b''.join(key)
+        key.append(str(len(data)).encode('ascii'))
+        key.append(data)
+
+    key = b'\x00'.join(key)
     cache = diskcache.Cache(cache_dir)
 
     try:
